@@ -175,9 +175,8 @@ theorem refines_flushAll (cfg : Cfg) (s : St) (delay : IntArg) (noreply : Option
 theorem versionLine_idx : Server.versionLine.idxOf? SP = some 7 := by
   simp only [Server.versionLine, lit_versionLine]; decide
 
-/-- the server state after `version` is `settle s` (a due delayed flush is applied), which `ApiSpec.spec`
-does not say: it returns `s` itself -/
-theorem refines_version (cfg : Cfg) (s : St) :
+/-- the server state after `version` is `settle s` (a due delayed flush is applied by any request) -/
+theorem refines_version_settle (cfg : Cfg) (s : St) :
     onServer cfg s .version = (settle s, (spec cfg s .version).2, true) := by
   have hparse : parseAll [versionCmd].flatten.length [versionCmd].flatten = some [.version] := by
     simpa using parseAll_single (parsesAs_of fun rest => C02_parse_versionCmd rest)
@@ -189,7 +188,11 @@ theorem refines_version (cfg : Cfg) (s : St) :
   · simpa using plain_versionLine
   · rfl
 
-theorem refines_quit (cfg : Cfg) (s : St) :
+theorem refines_version (cfg : Cfg) (s : St) :
+    onServer cfg s .version = ((spec cfg s .version).1, (spec cfg s .version).2, true) :=
+  refines_version_settle cfg s
+
+theorem refines_quit_settle (cfg : Cfg) (s : St) :
     onServer cfg s .quit = (settle s, (spec cfg s .quit).2, false) := by
   have hparse : parseAll [quitCmd].flatten.length [quitCmd].flatten = some [.quit] := by
     simpa using parseAll_single (parsesAs_of fun rest => C02_parse_quitCmd rest)
@@ -200,4 +203,8 @@ theorem refines_quit (cfg : Cfg) (s : St) :
   rw [onServer_sent cfg s .quit [quitCmd].flatten _ [] ?_ hfeed]
   · simp [call, exchangeMisc_open, spec, Except.map]
   · simp [call, exchangeMisc_open]
+
+theorem refines_quit (cfg : Cfg) (s : St) :
+    onServer cfg s .quit = ((spec cfg s .quit).1, (spec cfg s .quit).2, false) :=
+  refines_quit_settle cfg s
 end Client
